@@ -32,7 +32,9 @@ FITTING = ('fit', 'gridsearch', 'fit_quantile')
 ROOT = 'GAM'
 MAX_DEPTH = 6
 
-D, A, U, S, N, L = 'D', 'A', 'U', 'S', 'N', 'L'
+D, A, F, U, S, N, L = 'D', 'A', 'F', 'U', 'S', 'N', 'L'
+# F: the same data as a *numeric* ndarray (result of a validator, of .astype(..), or of arithmetic); arithmetic on D / A
+#    needs a numeric dtype (strings / None inside -> TypeError): action NeedsNumeric
 # L: a value that only carries the *length* of the traced argument (len(p), p.shape, np.ones_like(p), np.ones(p.shape[0]));
 #    comparing lengths of p with L is vacuous (no CheckLen is emitted), reading L is not a read of p's content
 # D: the traced argument as passed (any container); A: an ndarray holding the same data (np.array(D), D.ravel(), D / w,
@@ -40,7 +42,7 @@ D, A, U, S, N, L = 'D', 'A', 'U', 'S', 'N', 'L'
 
 
 def isD(v):
-    return v == D or v == A
+    return v == D or v == A or v == F
 
 
 class Unsupported(Exception):
@@ -56,7 +58,7 @@ def isC(v):
 
 
 def has_D(v):
-    if v == D or v == A:
+    if v == D or v == A or v == F:
         return True
     if isinstance(v, tuple) and v[0] == 'T':
         return any(has_D(x) for x in v[1])
@@ -309,7 +311,9 @@ class Tracer:
             if d2:
                 return a1 + a2, U, True
             if isD(v1) or isD(v2):
-                return a1 + a2, A, False        # numpy arithmetic accepts any array-like and returns an ndarray
+                # numpy arithmetic accepts any array-like container, but not strings / None
+                raw = v1 in (D, A) or v2 in (D, A)
+                return a1 + a2 + ([('NeedsNumeric', short(node))] if raw else []), F, False
             if has_D(v1) or has_D(v2):
                 return a1 + a2 + [('Use', short(node))], U, True
             return a1 + a2, U, False
@@ -428,7 +432,7 @@ class Tracer:
                     raise Unsupported('check_array call shape: %s' % short(node))
                 act = ('CheckArray',)
             if isD(subj):
-                return acts + [act], A, False
+                return acts + [act], F, False
             return acts, (L if subj == L else U), False
         # ---- self / super / alias method calls
         sc = self.self_call(node, env, ctx['fn_cls'])
@@ -475,7 +479,8 @@ class Tracer:
             if dead:
                 return a, U, True
             if isD(v) and not self.mentions(node.args, env):
-                return a + ([('NeedsArray', short(node))] if v == D else []), A, False
+                out = F if (f.attr == 'astype' or v == F) else A
+                return a + ([('NeedsArray', short(node))] if v == D else []), out, False
             if not has_D(v) and not self.mentions(node.args, env):
                 return a, (L if v == L else U), False
             return a + [('Use', short(node))], U, True
@@ -485,7 +490,7 @@ class Tracer:
             if dead:
                 return a, U, True
             if isD(v):
-                return a, A, False
+                return a, (F if v == F else A), False
             if not has_D(v):
                 return a, (L if v == L else U), False
             return a + [('Use', short(node))], U, True
@@ -872,8 +877,8 @@ def act_coq(a):
         return t
     if t == 'CheckY':
         return '(CheckY %s)' % ('true' if a[1] else 'false')
-    if t == 'NeedsArray':
-        return '(NeedsArray %s)' % qs(a[1])
+    if t in ('NeedsArray', 'NeedsNumeric'):
+        return '(%s %s)' % (t, qs(a[1]))
     if t == 'CheckX':
         return '(CheckX %s %s)' % ('true' if a[1] else 'false', 'true' if a[2] else 'false')
     if t == 'Use':
